@@ -518,6 +518,9 @@ class Ctx:
         }
         if extra:
             cov.update(extra)
+        self.assumptions = list(trusted or []) + self.assumptions
+        for name, d in sorted(getattr(self, 'monitor', {}).items()):
+            self.assumptions.append('oracle hypothesis monitored on the real LAPACK answers - %s: %d calls, %d misses' % (name, d['calls'], d['misses']))
         ev = {'property_id': self.prop, 'tier': self.tier, 'seed': self.seed, 'level': level,
               'coverage': cov, 'assumptions': self.assumptions, 'wall_s': round(wall, 2),
               'violations': len(seen)}
